@@ -21,10 +21,6 @@ namespace Outcome
 def ofOpt {α} : Option α → Outcome α
   | some a => .ok a
   | none => .err "e"
-def map {α β} (f : α → β) : Outcome α → Outcome β
-  | ok a => ok (f a)
-  | err e => err e
-  | panic s => panic s
 end Outcome
 
 namespace Obj
